@@ -63,3 +63,11 @@ Theorem C03_export_is_the_stage_grid : forall d o n a,
                 (forall k, k < n -> List.length (cells k) = List.length (nth (a + k) (d_stages d) [])).
 Proof. exact full_selection_grid. Qed.
 Print Assumptions C03_export_is_the_stage_grid.
+
+(* a rest keeps its duration marks, the rest letter and exactly its signifiers: import of the canonical text yields
+   exactly these sub-parts, and the default export prints them back verbatim *)
+From KV Require Import RestProofs RestFixedProofs Tokenizers.
+Theorem C03_rest_export_verbatim : forall r, rest_ok r -> rest_canonical_order r ->
+  kern_recognise (str (print_rest r)) = KTok (rest_token r) /\ kern_tokenize all_cats (rest_token r) = Ok (str (print_rest r)).
+Proof. intros r H1 H2. exact (conj (recognise_print_rest r H1) (kern_export_canonical_rest r H1 H2)). Qed.
+Print Assumptions C03_rest_export_verbatim.
